@@ -491,13 +491,14 @@ def configs_for(tier: str):
     return full, deep, deeper
 
 
-def slow_write_configs():
+def slow_write_configs(tier: str = "quick"):
     out = []
     for T in (0.3, 1.0):
         for wdl in (0.25 * T, T - EPS, T, T + 0.2, 2.5 * T):
             for idk in ("uuid", "digits"):
                 for cb in (False, True):
-                    out.append({"T": T, "id": idk, "params": "nested", "cb": cb, "L": 2, "rich": False, "write_delay": wdl})
+                    out.append({"T": T, "id": idk, "params": "nested", "cb": cb, "L": 1 if tier == "quick" else 2,
+                                "rich": tier == "quick", "write_delay": wdl})
     return out
 
 
@@ -511,7 +512,7 @@ def run(tier: str, only=None) -> core.Result:
     bound = 4 if tier == "quick" else 5
     out = explorer.explore(RUN, deeper, bound=bound, fidelity=True)
     sched.absorb(res, f"L{deeper[0]['L']}-deviation-bound-{bound}", RUN, out, deeper)
-    sw = slow_write_configs()
+    sw = slow_write_configs(tier)
     out = explorer.explore(RUN, sw, fidelity=True)
     sched.absorb(res, "slow-peer-write-backpressure", RUN, out, sw)
     hcfgs, hnames, uncallable = helper_configs()
